@@ -444,21 +444,21 @@ func gen(t *rapid.T) Case {
 
 func TestTeardown(t *testing.T) {
 	defer simworld.Discard()
-	vh.Check(t, prop, gen, run)
+	vh.Check(t, prop, gen, vh.Confirmed(run))
 }
 
 func TestFixed(t *testing.T) {
 	defer simworld.Discard()
 	for _, st := range []string{"template", "detector", "deploy-fail", "deploy-noagent", "configure"} {
-		vh.Fixed(t, prop, "failed-creation-"+st, Case{NTasks: 2, FailStage: st, PendingCall: true}, run)
+		vh.Fixed(t, prop, "failed-creation-"+st, Case{NTasks: 2, FailStage: st, PendingCall: true}, vh.Confirmed(run))
 	}
 	for _, tg := range []string{"DEPLOYED", "CONFIGURED", "RUNNING", "ERROR"} {
 		vh.Fixed(t, prop, "destroy-from-"+tg, Case{NTasks: 2, Target: tg, AllowRunning: true, PendingCall: true,
-			Hooks: []DestroyHook{{"DESTROY", -1}, {"DESTROY", 0}, {"after_DESTROY", 1}}}, run)
-		vh.Fixed(t, prop, "force-destroy-from-"+tg, Case{NTasks: 2, Target: tg, Force: true, Hooks: []DestroyHook{{"after_DESTROY", 0}}}, run)
+			Hooks: []DestroyHook{{"DESTROY", -1}, {"DESTROY", 0}, {"after_DESTROY", 1}}}, vh.Confirmed(run))
+		vh.Fixed(t, prop, "force-destroy-from-"+tg, Case{NTasks: 2, Target: tg, Force: true, Hooks: []DestroyHook{{"after_DESTROY", 0}}}, vh.Confirmed(run))
 	}
-	vh.Fixed(t, prop, "keep-tasks", Case{NTasks: 2, Target: "CONFIGURED", KeepTasks: true}, run)
-	vh.Fixed(t, prop, "executor-lost-then-forced-destroy-keeping-tasks", Case{NTasks: 3, Target: "RUNNING", Force: true, KeepTasks: true, PreFault: "executor"}, run)
-	vh.Fixed(t, prop, "task-failed-then-destroy", Case{NTasks: 2, Target: "CONFIGURED", PreFault: "task-failed"}, run)
-	vh.Fixed(t, prop, "kills-refused", Case{NTasks: 2, Target: "CONFIGURED", KillRefused: true}, run)
+	vh.Fixed(t, prop, "keep-tasks", Case{NTasks: 2, Target: "CONFIGURED", KeepTasks: true}, vh.Confirmed(run))
+	vh.Fixed(t, prop, "executor-lost-then-forced-destroy-keeping-tasks", Case{NTasks: 3, Target: "RUNNING", Force: true, KeepTasks: true, PreFault: "executor"}, vh.Confirmed(run))
+	vh.Fixed(t, prop, "task-failed-then-destroy", Case{NTasks: 2, Target: "CONFIGURED", PreFault: "task-failed"}, vh.Confirmed(run))
+	vh.Fixed(t, prop, "kills-refused", Case{NTasks: 2, Target: "CONFIGURED", KillRefused: true}, vh.Confirmed(run))
 }
